@@ -47,6 +47,7 @@ from prosemirror.transform import (
     Transform,
 )
 from prosemirror.transform.doc_attr_step import DocAttrStep
+from prosemirror.model import Slice
 
 from .. import core, gen, ops, schemas
 from ..codec import step_map
@@ -160,7 +161,10 @@ class AsReplace:
     """a mark step seen as the replace of its range by the re-marked slice (`markStep_as_replace`, lean/Proofs/
     CommuteAroundAgain.lean): range and open depths of `doc.slice(from, to)`"""
     def __init__(self, st, doc):
-        self.from_, self.to, self.slice = st.from_, st.to, doc.slice(st.from_, st.to)
+        if hasattr(st, "pos"):   # node-mark / attr step: the one-token range, closed slice (`nodeStep_full`)
+            self.from_, self.to, self.slice = st.pos, st.pos + 1, Slice.empty
+        else:
+            self.from_, self.to, self.slice = st.from_, st.to, doc.slice(st.from_, st.to)
 
 
 def first_step(rng, info, d, docs):
@@ -209,7 +213,7 @@ def run(ctx):
                     ctx.mismatch("gapGuard", replay, impl_guard, out)
                     continue
                 impl_guard = impl_guard[0]
-                kind = "" if req["b"][0] in ("replace", "replaceAround") else "-mark"
+                kind = "" if req["b"][0] in ("replace", "replaceAround") else "-mark" if req["b"][0] in ("addMark", "removeMark") else "-node"
                 ctx.count("gapGuard%s:%s,%s" % (kind, impl_guard, "converged" if converged else "an-order-fails"))
                 if impl_guard and not kind:
                     # the further hypotheses of `commute_succeeds_around_gap`: closed slice (`hcl`), aligned ends (`hdbal`)
@@ -317,8 +321,9 @@ def run(ctx):
                             da_, db_, x2, y2, dxy, dyx = sq
                             if da_ is None or db_ is None:
                                 break
-                            if isinstance(y, (ReplaceStep, ReplaceAroundStep, AddMarkStep, RemoveMarkStep)):
-                                # mark steps: `commute_succeeds_around_mark_gap_partial` (the guard on the slice they re-mark)
+                            if isinstance(y, (ReplaceStep, ReplaceAroundStep, AddMarkStep, RemoveMarkStep, AddNodeMarkStep, RemoveNodeMarkStep, AttrStep)):
+                                # mark steps: `commute_succeeds_around_mark_gap_partial` (the guard on the slice they re-mark); node-mark / attr
+                                # steps: `commute_succeeds_around_nodeStep_gap_partial` (one-token range, closed slice)
                                 stg, g = outcome(lambda: (inside_gap(d, x, y if hasattr(y, "slice") else AsReplace(y, d)),
                                                           x.slice.open_start == 0 and x.slice.open_end == 0))
                                 if stg == "ok":
